@@ -472,7 +472,7 @@ example : modelSkel pEx 10 (stableWithdrawOps pEx 10 100) ≠
     (modelSkel pEx 10 (stableWithdrawOps pEx 10 100)).map (relaxAt [3]) := by decide +kernel
 /-- a skeleton in which the closing-fee transfer sits under the INTEREST guard (seed s71) is not the model's: the projection of
 such a table has no value under the empty valuation -/
-example : onPath (valOf []) ⟨"bank", "SendCoinsFromModuleToModule", "\"vaultV1\"", "\"collectorV1\"", tOut, "x", [],
+example : onPath (valOf []) ⟨"bank", "SendCoinsFromModuleToModule", "\"vaultV1\"", "\"collectorV1\"", tOut, "x", "", "", "", [],
     [⟨"if", true, "vault.GetVault(msg.UserVaultId).InterestAccumulated.GT(0)", 0⟩], false, false, "MsgClose", 0⟩ = none := by
   decide +kernel
 example (s : State) : close s pEx {} 10 1 1 1 = none ∨ ∃ s', close s pEx {} 10 1 1 1 = some s' := by
